@@ -316,6 +316,22 @@ func (x *FnExec) applySpec(fr *frame, n *node, in ssa.Instruction, spec *FuncSpe
 		}
 	}
 	x.havocInteriorArgs(st, args, ws, reach, hint)
+	// ghost variables the callee's own bookkeeping updates are arbitrary afterwards (its ensures may constrain them)
+	{
+		seenG := map[string]bool{}
+		for _, gu := range spec.Ghost {
+			if seenG[gu.Var] {
+				continue
+			}
+			seenG[gu.Var] = true
+			if gv, ok := x.eng.specs.Ghosts[gu.Var]; ok {
+				gctx := &evalCtx{env: n.env, st: st, old: fr.oldState, block: n.b, pkg: x.eng.pkgByPath(spec.Pkg)}
+				if cur, err := x.ghostGet(st, gv, gctx); err == nil {
+					st.heap["$ghost:"+gv.Name] = x.q.freshConst("hv_ghost_"+gv.Name, cur.Sort)
+				}
+			}
+		}
+	}
 	// preserved heaps: pre-existing objects unchanged; allocation only grows
 	for _, h := range x.preservedHeaps(spec, callee) {
 		if ws[h] {
